@@ -225,17 +225,19 @@ pub open spec fn n2c_accepts<CS: CLCiphersuite>(p: NISP2Commitments, c1: CL03Com
     let w2 = ((resp_prod(cpk.g_bases@, p.d@, idx, n2, k) * pow_mod(cpk.h@, p.d_2@, n2)) * pow_mod(c2.value@, -1 * p.challenge@, n2)) % n2;
     p.challenge@ == from_digits_be(hash_str::<CS::HashAlg>(dec_string(w1) + dec_string(w2)))
 }
-/// acceptance of a Boudot range proof against (bases, modulus, bounds): unfolded in unit cl_range
-pub uninterp spec fn range_accepts(p: Boudot2000RangeProof, g: int, h: int, n: int, lo: int, hi: int) -> bool;
+/// acceptance of a Boudot range proof against (bases, modulus, bounds): the unfolded predicate of Boudot2000RangeProof::verify
+pub open spec fn range_accepts<H>(p: Boudot2000RangeProof, g: int, h: int, n: int, lo: int, hi: int) -> bool {
+    range_accept_i::<H>(p, g, h, n, lo, hi)
+}
 
 /// the core of ZKPoK::verify_proof: multi-secret PoK on C, per-attribute PoK + range proof, PoK + range proof of r
 pub open spec fn zk_core<CS: CLCiphersuite>(zk: CL03ZKPoK, c: CL03Commitment, pk: CL03PublicKey, bases: Seq<Integer>, idx: Seq<usize>) -> bool {
     &&& ms_accepts::<CS>(zk.proof_commited_msgs, c, pk, bases, idx)
     &&& zk.proofs_commited_mi@.len() >= idx.len() && zk.range_proofs_mi@.len() >= idx.len()
     &&& forall|k: int| 0 <= k < idx.len() ==> nisp2sec_accepts::<CS>((#[trigger] zk.proofs_commited_mi@[k]).value, zk.proofs_commited_mi@[k].commitment, bases[idx[k] as int]@, pk.b@, pk.N@)
-    &&& forall|k: int| 0 <= k < idx.len() ==> range_accepts(#[trigger] zk.range_proofs_mi@[k], bases[idx[k] as int]@, pk.b@, pk.N@, 0, ipow(2, CS::lm as nat) - 1)
+    &&& forall|k: int| 0 <= k < idx.len() ==> range_accepts::<CS::HashAlg>(#[trigger] zk.range_proofs_mi@[k], bases[idx[k] as int]@, pk.b@, pk.N@, 0, ipow(2, CS::lm as nat) - 1)
     &&& nisp2sec_accepts::<CS>(zk.proof_r.value, zk.proof_r.commitment, bases[0]@, pk.b@, pk.N@)
-    &&& range_accepts(zk.range_proof_r, bases[0]@, pk.b@, pk.N@, 0, ipow(2, CS::ln as nat) - 1)
+    &&& range_accepts::<CS::HashAlg>(zk.range_proof_r, bases[0]@, pk.b@, pk.N@, 0, ipow(2, CS::ln as nat) - 1)
 }
 
 /// F11: the statements are tied together — each range proof speaks about the commitment of the matching PoK, and
@@ -333,10 +335,10 @@ pub open spec fn nisp5_accepts<CS: CLCiphersuite>(p: NISPSignaturePoK, cpk: CL03
 pub open spec fn spok_core<CS: CLCiphersuite>(p: CL03PoKSignature, cpk: CL03CommitmentPublicKey, pk: CL03PublicKey, bases: Seq<Integer>, msgs: Seq<CL03Message>, idx: Seq<usize>, n: int) -> bool {
     &&& nisp5_accepts::<CS>(p.spok, cpk, pk, bases, msgs, idx, n)
     &&& p.spok.Ce.value@ == p.range_proof_e.E@
-    &&& range_accepts(p.range_proof_e, cpk.g_bases@[0]@, cpk.h@, cpk.N@, ipow(2, (CS::le - 1) as nat) + 1, ipow(2, CS::le as nat) - 1)
+    &&& range_accepts::<CS::HashAlg>(p.range_proof_e, cpk.g_bases@[0]@, cpk.h@, cpk.N@, ipow(2, (CS::le - 1) as nat) + 1, ipow(2, CS::le as nat) - 1)
     &&& p.proofs_commited_mi@.len() >= idx.len() && p.range_proofs_commited_mi@.len() >= idx.len()
     &&& forall|k: int| 0 <= k < idx.len() ==> nisp2sec_accepts::<CS>((#[trigger] p.proofs_commited_mi@[k]).value, p.proofs_commited_mi@[k].commitment, cpk.g_bases@[idx[k] as int]@, cpk.h@, cpk.N@)
-    &&& forall|k: int| 0 <= k < idx.len() ==> range_accepts(#[trigger] p.range_proofs_commited_mi@[k], cpk.g_bases@[idx[k] as int]@, cpk.h@, cpk.N@, 0, ipow(2, CS::lm as nat) - 1)
+    &&& forall|k: int| 0 <= k < idx.len() ==> range_accepts::<CS::HashAlg>(#[trigger] p.range_proofs_commited_mi@[k], cpk.g_bases@[idx[k] as int]@, cpk.h@, cpk.N@, 0, ipow(2, CS::lm as nat) - 1)
 }
 
 pub open spec fn spok_ties_mi(p: CL03PoKSignature, idx: Seq<usize>) -> bool {
